@@ -642,13 +642,17 @@ def main():
         stability=[dict(unit=r["unit"], **r["stability"]) for r in results if r.get("stability")],
         kani=kani_runs,
         assumption_sanity=sanity,
-        property_id=prop, tier=tier, seed=seed, level="proof" if not undecided else "other",
+        property_id=prop, tier=tier, seed=seed, level=("proof" if not undecided else "other") if spec.get("category", "proof") == "proof" else spec["category"],
         coverage=dict(
             obligations=n_obl, discharged=n_obl - n_failed,
             checker_cmd="; ".join(sorted({c for r in results for c in r["cmds"]})) or "verus <unit>.rs --output-json",
             trusted_base=tb,
             samples=samples or [dict(note="no obligation owned")],
-            explanation=spec.get("explanation", ""),
+            explanation=(spec.get("explanation", "") + " " if spec.get("explanation") else "") +
+                        f"This run: Verus on {len(results)} generated unit(s), {sum(1 for r in results if r['status'] == 'ok')} decided"
+                        + (" (undecided: " + "; ".join(f"{r['unit']}: {str(r['reason'])[:160]}" for r in undecided) + "), which is why the level of this run is 'other' and not 'proof'" if undecided else "")
+                        + f"; {n_obl} obligations owned by the property, {n_obl - n_failed} discharged; bounded stand-in: "
+                        + (f"{bounded.get('scenarios_run', 0)} scenarios / generated cases replayed on the real crate, {len(scen_fail)} failing" if bounded.get("scenarios_run") else "not run in this tier (the verifier decided every unit)") + ".",
             units=[dict(unit=r["unit"], status=r["status"], reason=r["reason"], smt_ms=r["smt_ms"],
                         wall_s=round(r["wall"], 2), canaries=r["canaries"],
                         result_reused_from_identical_text=bool(r.get("cached"))) for r in results],
